@@ -83,13 +83,21 @@ class CurveMachine(object):
             _, name, aseed, k = op
             a = mkarr(aseed, self.rows, k if k % 3 == 0 else None)
             u, d, v = UNITS[k % len(UNITS)], DESCRS[k % len(DESCRS)], VALUES[k % len(VALUES)]
-            las.append_curve(name, a, unit=u, descr=d, value=v)
+            if k % 5 == 4:
+                las.append_curve_item(self.lasio.CurveItem(name, u, v, d, a))       # the item-level API
+            elif k % 5 == 3:
+                las.curves.append(self.lasio.CurveItem(name, u, v, d, a))           # straight on the section
+            else:
+                las.append_curve(name, a, unit=u, descr=d, value=v)
             L.append({"orig": name, "unit": u, "value": v, "descr": d, "data": a.copy()})
         elif kind == "insert":
             _, ix, name, aseed, k = op
             a = mkarr(aseed, self.rows)
             u, d, v = UNITS[k % len(UNITS)], DESCRS[k % len(DESCRS)], VALUES[k % len(VALUES)]
-            las.insert_curve(ix, name, a, unit=u, descr=d, value=v)
+            if k % 4 == 3:
+                las.insert_curve_item(ix, self.lasio.CurveItem(name, u, v, d, a))
+            else:
+                las.insert_curve(ix, name, a, unit=u, descr=d, value=v)
             L.insert(ix, {"orig": name, "unit": u, "value": v, "descr": d, "data": a.copy()})
         elif kind == "delete_ix":
             if n == 0:
